@@ -80,6 +80,9 @@ where
         // the event, so we clear its diagnostic state before we let go of it.
         #[cfg(debug_assertions)]
         Event::clear_awaiter_backtrace(self);
+
+        #[cfg(folo_verif)]
+        crate::verif::notify_release(self.event.as_ptr() as usize);
     }
 }
 
@@ -172,6 +175,9 @@ where
         unsafe {
             dealloc(self.event.as_ptr().cast(), Self::layout());
         }
+
+        #[cfg(folo_verif)]
+        crate::verif::notify_release(self.event.as_ptr() as usize);
     }
 }
 
